@@ -135,8 +135,14 @@ class StmtMixin:
             e = s.value
             if isinstance(e, ast.Call) and isinstance(e.func, ast.Attribute) and isinstance(e.func.value, ast.Name) and e.func.value.id in opq:
                 st = st.copy()
-                if ("__alias__" + e.func.value.id) in st.env:
-                    raise
+                al = st.env.get("__alias__" + e.func.value.id)
+                if al is not None:
+                    # the local is an alias of obj.field: the unmodelled mutation also hits the object (arbitrary new value)
+                    obj, fld = al.what
+                    so = self.field_sort(fld, obj.cls)
+                    nv = fresh(so, "aliased_" + fld)
+                    self.assume_wf(st, nv, nullable=True)
+                    self.write_field(st, obj, fld, nv)
                 st.env[e.func.value.id] = VOpaque("unmodelled value of " + e.func.value.id)
                 return [(st, ("normal",))]
             raise
@@ -699,7 +705,8 @@ class StmtMixin:
                 continue
             if ok and base_arr is None and z3.is_const(t):
                 continue
-            raise Unsupported("%s modifies heap field %s of a pre-existing object, which its loop contract does not declare (modifies=[...]) [%s]" % (what, k, str(a)[:300]))
+            # the loop body changes a field its contract declares untouched: a failed (frame) obligation of the loop contract
+            self.oblige(st, z3.BoolVal(False), "loop.frame", "unmodified[%s] in %s" % (k, what.split(" of ")[0]))
         for k, v in st.glob.items():
             if k not in head.glob or head.glob[k] is not v:
                 if ("global:" + k) not in declared:
